@@ -77,6 +77,16 @@ PROPS["C10"] = {"engines": [{"engine": "waldmg", "shim": True}],
                          "with Cas::open under catch_unwind. states = distinct damaged inputs, transitions = opens."),
                 "explanation": "A damaged log is rejected with an error or yields exactly the index (key -> hash,size) after the longest undamaged prefix, never a panic, for every truncation offset and every single-byte change of checksum/payload."}
 
+PROPS["C08"] = {"engines": [{"engine": "plant", "shim": False}, {"engine": "crash", "shim": True}],
+                "rule": ("PLANT: every subset (size <= 2 quick / 3 thorough) of an 11-item garbage/corruption menu is planted into every closed store of every history up to the stated depth; "
+                         "open_with_recover (verify on and off) must report exactly the independently computed orphan / invalid / missing / corrupted / staging sets; delete_orphans, "
+                         "delete_orphan and quarantine_orphans must remove exactly the garbage and never a referenced blob. CRASH: the same comparison on every crash image. " + CRASH_RULE),
+                "explanation": "Orphan scan exactness and clean-up safety on every crash image and under exhaustive small subsets of planted garbage. The concurrent clause (clean-up vs put of orphaned content) is decided by the SCHED engine when present."}
+PROPS["C06"] = {"engines": [{"engine": "crash", "shim": True}, {"engine": "seq", "shim": False}],
+                "rule": CRASH_RULE + " SEQ: " + SEQ_RULE,
+                "explanation": "On every crash image every file under cas/ is re-hashed and must equal the hash its path encodes (no empty, partial, in-place-written or stray file is ever visible); in every sequence, readers obtained before each overwrite/removal are drained afterwards and must stream the original bytes; cas/ files are re-hashed after every step."}
+PROPS["C12"]["engines"].append({"engine": "crash", "shim": True})
+
 ENGINES = [
     {"name": "seq", "path": "harness/src/seq.rs", "serves_properties": ["C01", "C02", "C07", "C12", "C13"],
      "kind_free_text": "bounded-exhaustive operation-sequence enumeration on the real store vs BTreeMap model + independent on-disk decoders"},
@@ -86,10 +96,12 @@ ENGINES = [
      "kind_free_text": "exhaustive small-scope input enumeration into the real codecs / range reads / chunked puts, under catch_unwind and an allocation guard"},
     {"name": "waldmg", "path": "harness/src/waldmg.rs", "serves_properties": ["C10"],
      "kind_free_text": "every truncation offset / single-byte change of the un-checkpointed WAL tail of bounded-history stores, opened with the real Cas::open"},
-    {"name": "crash", "path": "harness/src/crash.rs", "serves_properties": ["C03", "C20"],
+    {"name": "plant", "path": "harness/src/plant.rs", "serves_properties": ["C08"],
+     "kind_free_text": "exhaustive small subsets of planted garbage/corruption in every bounded-history store: scan classification and clean-up exactness"},
+    {"name": "crash", "path": "harness/src/crash.rs", "serves_properties": ["C03", "C06", "C08", "C12", "C20"],
      "kind_free_text": "every syscall boundary of every bounded history: live-directory crash images via LD_PRELOAD shim, recovered and checked, nested in recovery"},
 ]
 
 # properties not (yet) claimed; kept current as engines land
 NOT_APPLICABLE = {p: "engine not built yet in this round (planned, see DESIGN.md §3)" for p in
-                  ["C04", "C05", "C06", "C08", "C09", "C11", "C15", "C19"]}
+                  ["C04", "C05", "C09", "C11", "C15", "C19"]}
